@@ -11,6 +11,7 @@ import (
 // C14: derived variables and counters. All value oracles are evaluated at quiescence, after the deadlock oracle.
 
 type tuple = [3]int
+type tuple4 = [4]int
 
 // wcall is one write call on an input (used to decide whether an unmonitor call raced with a write).
 type wcall struct {
@@ -38,7 +39,10 @@ type dnode struct {
 }
 
 func derivedBody(s *simrt.Sim) {
-	ins := make([]rx.Variable[int], 3)
+	// three inputs, or four: then the builders may also draw the DerivedVariable4 shapes and the writers also work on
+	// the fourth input
+	nin := 3 + s.Choose(2)
+	ins := make([]rx.Variable[int], nin)
 	for i := range ins {
 		ins[i] = rx.NewVariable[int]()
 		if s.Choose(2) == 1 {
@@ -53,7 +57,7 @@ func derivedBody(s *simrt.Sim) {
 	// writers: each works on one input (different writers may share an input)
 	nwriters := 1 + s.Choose(3)
 	for i := 0; i < nwriters; i++ {
-		input := s.Choose(3)
+		input := s.Choose(nin)
 		n := 1 + s.Choose(4)
 		type op struct{ kind, val, pre int }
 		ops := make([]op, n)
@@ -88,7 +92,12 @@ func derivedBody(s *simrt.Sim) {
 	// builders: each builds one derived node while the writers run, and optionally tears it down again
 	nbuilders := 1 + s.Choose(3)
 	for i := 0; i < nbuilders; i++ {
-		shape := s.Choose(7)
+		shape := 0
+		if nin == 4 {
+			shape = s.Weighted(1, 1, 1, 1, 1, 1, 1, 3, 3, 3) // 7..9: the DerivedVariable4 shapes
+		} else {
+			shape = s.Choose(7)
+		}
 		x := s.Choose(3)
 		y := (x + 1 + s.Choose(2)) % 3
 		delay := s.Choose(5)
@@ -158,6 +167,30 @@ func derivedBody(s *simrt.Sim) {
 				n.deps = []int{0, 1, 2}
 				d := rx.NewDerivedVariable3(func(_ int, a, b, c int) int { note(); return a + b + c }, ins[0], ins[1], ins[2])
 				n.get, n.want, n.teardown = func() any { return d.Get() }, func() any { return in(0) + in(1) + in(2) }, d.Unsubscribe
+			case 7:
+				n.shape = "DerivedVariable4(in0,in1,in2,in3)"
+				n.deps = []int{0, 1, 2, 3}
+				d := rx.NewDerivedVariable4(func(_ tuple4, a, b, c, e int) tuple4 { note(); return tuple4{a, b, c, e} }, ins[0], ins[1], ins[2], ins[3])
+				n.get, n.want, n.teardown = func() any { return d.Get() }, func() any { return tuple4{in(0), in(1), in(2), in(3)} }, d.Unsubscribe
+			case 8:
+				// the fourth input first, an initial value that no input combination produces
+				n.shape = fmt.Sprintf("DerivedVariable4(in3,in%d,in%d,in%d; initial value)", x, y, 3-x-y)
+				z := 3 - x - y
+				n.deps = []int{0, 1, 2, 3}
+				d := rx.NewDerivedVariable4(func(_ tuple4, a, b, c, e int) tuple4 { note(); return tuple4{a, b, c, e} }, ins[3], ins[x], ins[y], ins[z], tuple4{-1, -1, -1, -1})
+				n.get, n.want, n.teardown = func() any { return d.Get() }, func() any { return tuple4{in(3), in(x), in(y), in(z)} }, d.Unsubscribe
+			case 9:
+				n.shape = fmt.Sprintf("DerivedVariable4(DerivedVariable(in%d),in%d,in%d,in3) folding the current value", x, y, 3-x-y)
+				z := 3 - x - y
+				n.deps = []int{0, 1, 2, 3}
+				d1 := rx.NewDerivedVariable(func(_ int, a int) int { return a + 100 }, ins[x])
+				// compute uses the current value the way an accumulator would, but remains a function of the inputs
+				d := rx.NewDerivedVariable4(func(cur tuple4, a, b, c, e int) tuple4 {
+					note()
+					cur[0], cur[1], cur[2], cur[3] = a, b, c, e
+					return cur
+				}, d1, ins[y], ins[z], ins[3])
+				n.get, n.want, n.teardown = func() any { return d.Get() }, func() any { return tuple4{in(x) + 100, in(y), in(z), in(3)} }, d.Unsubscribe
 			}
 			n.built.ret = s.Tick()
 			s.Logf("built %s %s", n.name, n.shape)
@@ -180,7 +213,11 @@ func derivedBody(s *simrt.Sim) {
 
 	left := s.Quiesce()
 	hx.Stuck(s, "deadlock", left, nil)
-	s.Logf("inputs %d %d %d", in(0), in(1), in(2))
+	inputs := make([]int, nin)
+	for i := range inputs {
+		inputs[i] = in(i)
+	}
+	s.Logf("inputs %v", inputs)
 	for i, a := range writes {
 		r.hit("input-write-without-change", a.ret != 0 && !a.changed)
 		for _, b := range writes[i+1:] {
@@ -214,7 +251,7 @@ func derivedBody(s *simrt.Sim) {
 		got, want := n.get(), n.want()
 		s.Logf("%s %s = %v", n.name, n.shape, got)
 		if got != want {
-			s.Fail("derived-variable", "value-differs-from-function-of-inputs", "%s %s = %v, inputs (%d,%d,%d) give %v", n.name, n.shape, got, in(0), in(1), in(2), want)
+			s.Fail("derived-variable", "value-differs-from-function-of-inputs", "%s %s = %v, inputs %v give %v", n.name, n.shape, got, inputs, want)
 		}
 	}
 }
